@@ -780,10 +780,11 @@ fn run_op<const N: usize, T: Elem>(
             meas(|| buf.fill_spare_with(T::from_closure));
             "unit".to_string()
         }
-        "drain" => {
+        "drain" | "drain_debug" => {
             let (sb, eb) = (p_bound(toks[1]), p_bound(toks[2]));
             let script = p_script(toks[3]);
-            let forget = toks[4] == "forget";
+            let dbg_it = toks[0] == "drain_debug";
+            let forget = !dbg_it && toks[4] == "forget";
             let mut out: Vec<String> = Vec::with_capacity(script.len());
             let mut d = meas(|| buf.drain((sb, eb)));
             for st in script {
@@ -812,6 +813,14 @@ fn run_op<const N: usize, T: Elem>(
                         });
                         keep(bag, r);
                     }
+                }
+            }
+            if dbg_it {
+                // <Drain as Debug>::fmt: the elements still to be yielded
+                let mut txt = String::with_capacity(64 + 24 * d.len());
+                meas(|| write!(txt, "{:?}", d)).unwrap();
+                if !txt.starts_with('[') {
+                    extra.push_str("drain-debug-not-a-list;");
                 }
             }
             if forget {
@@ -925,13 +934,19 @@ fn run_op<const N: usize, T: Elem>(
             let j = |v: Vec<String>| if v.is_empty() { "-".to_string() } else { v.join(",") };
             format!("sl[{}|{}]", j(oa), j(ob))
         }
-        "iter" | "range" => {
-            let (script, mut it) = if toks[0] == "iter" {
-                (p_script(toks[1]), meas(|| buf.iter()))
-            } else {
-                let (sb, eb) = (p_bound(toks[1]), p_bound(toks[2]));
-                (p_script(toks[3]), meas(|| buf.range((sb, eb))))
+        "iter" | "range" | "ref_into_iter" | "iter_default" | "iter_debug" => {
+            let (script, mut it) = match toks[0] {
+                "iter" => (p_script(toks[1]), meas(|| buf.iter())),
+                // <&CircularBuffer as IntoIterator>::into_iter
+                "ref_into_iter" => (p_script(toks[1]), meas(|| (&*buf).into_iter())),
+                // <Iter as Default>::default
+                "iter_default" => (p_script(toks[1]), meas(|| circular_buffer::Iter::<'_, T>::default())),
+                _ => {
+                    let (sb, eb) = (p_bound(toks[1]), p_bound(toks[2]));
+                    (p_script(toks[3]), meas(|| buf.range((sb, eb))))
+                }
             };
+            let dbg_it = toks[0] == "iter_debug";
             let mut out: Vec<String> = Vec::with_capacity(script.len());
             let mut clones: Vec<(usize, circular_buffer::Iter<'_, T>)> = Vec::new();
             for st in script {
@@ -968,16 +983,31 @@ fn run_op<const N: usize, T: Elem>(
                 let v: Vec<String> = c.map(|e| s_ref(buf, e)).collect();
                 out[pos] = format!("L[{}]", if v.is_empty() { "-".to_string() } else { v.join(",") });
             }
+            if dbg_it {
+                // <Iter as Debug>::fmt: the elements still to come, as a list
+                let mut txt = String::with_capacity(64 + 24 * it.len());
+                meas(|| write!(txt, "{:?}", it)).unwrap();
+                let save = phase();
+                set_phase(2);
+                let rest: Vec<&T> = it.clone().collect();
+                if txt != format!("{:?}", &rest[..]) {
+                    extra.push_str("iter-debug-differs;");
+                }
+                set_phase(save);
+            }
             sc(out)
         }
-        "iter_mut" | "range_mut" => {
+        "iter_mut" | "range_mut" | "iter_mut_default" | "iter_mut_debug" => {
             let sz = mem::size_of::<T>().max(1);
-            let (script, mut it) = if toks[0] == "iter_mut" {
-                (p_script(toks[1]), meas(|| buf.iter_mut()))
-            } else {
-                let (sb, eb) = (p_bound(toks[1]), p_bound(toks[2]));
-                (p_script(toks[3]), meas(|| buf.range_mut((sb, eb))))
+            let (script, mut it) = match toks[0] {
+                "iter_mut" => (p_script(toks[1]), meas(|| buf.iter_mut())),
+                "iter_mut_default" => (p_script(toks[1]), meas(|| circular_buffer::IterMut::<'_, T>::default())),
+                _ => {
+                    let (sb, eb) = (p_bound(toks[1]), p_bound(toks[2]));
+                    (p_script(toks[3]), meas(|| buf.range_mut((sb, eb))))
+                }
             };
+            let dbg_it = toks[0] == "iter_mut_debug";
             let mut out: Vec<String> = Vec::with_capacity(script.len());
             let mut held: Vec<*const T> = Vec::with_capacity(script.len());
             for st in script {
@@ -1012,9 +1042,21 @@ fn run_op<const N: usize, T: Elem>(
                     }
                 }
             }
+            if dbg_it {
+                // <IterMut as Debug>::fmt
+                let mut txt = String::with_capacity(64 + 24 * it.len());
+                meas(|| write!(txt, "{:?}", it)).unwrap();
+                let save = phase();
+                set_phase(2);
+                let rest: Vec<&mut T> = it.collect();
+                if txt != format!("{:?}", &rest[..]) {
+                    extra.push_str("iter-mut-debug-differs;");
+                }
+                set_phase(save);
+            }
             sc(out)
         }
-        "into_iter" => {
+        "into_iter" | "into_iter_debug" => {
             let script = p_script(toks[1]);
             let mut out: Vec<String> = Vec::with_capacity(script.len());
             let old = mem::replace(buf, CircularBuffer::new());
@@ -1047,8 +1089,26 @@ fn run_op<const N: usize, T: Elem>(
                     }
                 }
             }
+            if toks[0] == "into_iter_debug" {
+                // <IntoIter as Debug>::fmt
+                let mut txt = String::with_capacity(64 + 24 * it.len());
+                meas(|| write!(txt, "{:?}", it)).unwrap();
+                if !txt.starts_with('[') {
+                    extra.push_str("into-iter-debug-not-a-list;");
+                }
+            }
             meas(|| drop(it));
             sc(out)
+        }
+        "boxed" => {
+            // CircularBuffer::boxed(): one allocation, empty; moved into place, old buffer dropped
+            let b = meas(|| CircularBuffer::<N, T>::boxed());
+            if !b.is_empty() || b.len() != 0 {
+                extra.push_str("boxed-not-empty;");
+            }
+            let old = mem::replace(buf, *b);
+            meas(|| drop(old));
+            "unit".to_string()
         }
         "to_vec" => {
             let v = meas(|| buf.to_vec());
